@@ -7,6 +7,7 @@ Key paths into the builder-keys tree and into a locale (shared by the full state
 * `lvAt bki p`    — the builder key (`LocaleValue`) at key path `p`.
 * `valueAt ks p`  — the value a locale with key map `ks` holds at key path `p`, as the code sees
                     it: after `reduce`, descending through groups (`Subkeys`) only.
+* `leafValAt ks p` — that value exists and is not a group.
 -/
 namespace I18nVerif.Check
 open I18nVerif
@@ -47,5 +48,18 @@ def valueAt : List (Str × PV) → List Str → Option PV
             | .subkeys (some l) => valueAt l.keys rest
             | _ => none)
       | _ => none
+
+/-- a value that is not a group -/
+def isLeafVal : PV → Bool
+  | .subkeys _ => false
+  | _ => true
+
+def leafOpt : Option PV → Bool
+  | some c => isLeafVal c
+  | none => false
+
+/-- the locale with key map `ks` has a plain (non-group) value at key path `p` — for the default
+    locale: `p` is an accessible key (a leaf of the builder keys) -/
+def leafValAt (ks : List (Str × PV)) (p : List Str) : Bool := leafOpt (valueAt ks p)
 
 end I18nVerif.Check
